@@ -95,6 +95,7 @@ func check(ctx *pbt.Ctx, c Case) error {
 		}
 	}
 	var sawSingleNoOut, sawErrIdx, sawErrTxID, sawErrScript, sawOtherDefect bool
+	partialLabels := map[string]bool{}
 
 	for _, idx := range indices(n) {
 		inRange := int64(idx) < int64(n)
@@ -135,9 +136,16 @@ func check(ctx *pbt.Ctx, c Case) error {
 					return fmt.Errorf("CalcInputSignatureHash(idx=%d, type=0x%02x) = (%x, %v) for an input with missing txid=%v / missing previous script=%v; want the matching sentinel error", idx, ht, sh, herr, noID, noScript)
 				}
 			case anyNoTxID >= 0:
-				// another input has no previous txid: the specification does not say
-				// what hashPrevouts is then; only totality and non-interference are checked
+				// another input has no previous txid: the specification does not say what
+				// hashPrevouts is then - every other field of the preimage is specified all the
+				// same, and with ANYONECANPAY the whole of it (ninth round, see partial_test.go)
 				sawOtherDefect = true
+				l, err := judgePartial(m, int(idx), ht, pre, perr, sh, herr)
+				if err != nil {
+					return err
+				}
+				partialLabels[l] = true
+				digests.Add(1)
 			default:
 				in := m.In[idx]
 				wantPre, wantHash := ref.SigHashForkID(m, int(idx), in.PrevScript, in.PrevSats, uint32(ht))
@@ -204,9 +212,14 @@ func check(ctx *pbt.Ctx, c Case) error {
 	for _, l := range []struct {
 		on bool
 		s  string
-	}{{sawSingleNoOut, "single_without_output"}, {sawErrIdx, "err_index"}, {sawErrTxID, "err_no_txid"}, {sawErrScript, "err_no_prev_script"}, {sawOtherDefect, "other_input_without_txid(skipped)"}} {
+	}{{sawSingleNoOut, "single_without_output"}, {sawErrIdx, "err_index"}, {sawErrTxID, "err_no_txid"}, {sawErrScript, "err_no_prev_script"}, {sawOtherDefect, "other_input_without_txid"}} {
 		if l.on {
 			ctx.Label(l.s)
+		}
+	}
+	for _, l := range []string{"partial:acp_whole_preimage", "partial:all_fields_but_hashPrevouts", "partial:refused"} {
+		if partialLabels[l] {
+			ctx.Label(l)
 		}
 	}
 	if nontrivial {
